@@ -18,6 +18,7 @@ RULE = (
     "of invalid specifications. Oracle: per-character attribute overwrite model on cells; all spellings give identical cells and "
     "str(); removal deletes exactly the named; invalid -> ValueError only; shared_atts subset of what every character has. "
     "Non-trivial: >=2 layers touching the same attribute kind, a multi-run base, or a False override."
+    ' Bases are observed (all caches filled) before each layer and the terminal string of every result is judged by the SGR interpreter as well as the run attributes.'
 )
 ASSUMPTIONS = [
     "wrong-case names ('RED', 'on_RED'): the code visibly intends case-insensitivity, so either working (as the lowered name) or ValueError is accepted, nothing else",
